@@ -1,5 +1,38 @@
+import NessaiVerif.Model.Np
 import NessaiVerif.Driver.Parse
-/- stub: replaced by the owner of this area -/
+/- `np` — the NumPy primitive models on their own (validated against NumPy by harness/np_prims.py):
+   `np ssl [a..] v` | `np ssr [a..] v` | `np insert [a..] [idx..] [vals..]` | `np argmax [0/1..]`
+   | `np complement n [idx..]` | `np cumsum [a..]` | `np splitn n k` -/
 namespace NessaiVerif.Driver.NpPrim
-def handle (_toks : List String) : String := "bad-op"
+open NessaiVerif NessaiVerif.Parse NessaiVerif.Np
+
+def handle (toks : List String) : String :=
+  match toks with
+  | ["ssl", a, v] =>
+    match parseList? parseInt? a, parseInt? v with
+    | some a, some v => toString (ssl a v)
+    | _, _ => "bad-op"
+  | ["ssr", a, v] =>
+    match parseList? parseInt? a, parseInt? v with
+    | some a, some v => toString (ssr a v)
+    | _, _ => "bad-op"
+  | ["insert", a, i, v] =>
+    match parseList? parseInt? a, parseList? parseNat? i, parseList? parseInt? v with
+    | some a, some i, some v =>
+      if i.length ≠ v.length then "err=value" else showList toString (insertMany a i v 0)
+    | _, _, _ => "bad-op"
+  | ["argmax", b] =>
+    match parseList? parseBool? b with
+    | some b => if b.isEmpty then "err=value" else toString (argmaxBool b)
+    | none => "bad-op"
+  | ["complement", n, i] =>
+    match parseNat? n, parseList? parseNat? i with
+    | some n, some i => showList toString (complement n i)
+    | _, _ => "bad-op"
+  | ["cumsum", a] =>
+    match parseList? parseInt? a with
+    | some a => showList toString (cumsum a 0)
+    | none => "bad-op"
+  | _ => "bad-op"
+
 end NessaiVerif.Driver.NpPrim
